@@ -60,6 +60,30 @@ impl<V> PMap<V> {
     { unimplemented!() }
 }
 
+impl<V> PMap<V> {
+    #[verifier::external_body]
+    pub fn values<'a>(&'a self) -> (r: PMapValues<'a, V>) ensures r.of() == self@ { unimplemented!() }
+
+    #[verifier::external_body]
+    pub fn is_empty(&self) -> (r: bool) ensures r == (self@.dom().len() == 0) { unimplemented!() }
+}
+
+/// `HashMap::values()`: only its first `next()` is modelled: some value of the map, or None iff the map is empty.
+#[verifier::external_body]
+#[verifier::reject_recursive_types(V)]
+pub struct PMapValues<'a, V> { _p: core::marker::PhantomData<&'a V> }
+
+impl<'a, V> PMapValues<'a, V> {
+    pub uninterp spec fn of(&self) -> Map<SynTypePath, V>;
+
+    #[verifier::external_body]
+    pub fn next(&mut self) -> (r: Option<&'a V>)
+        ensures
+            old(self).of().dom().len() == 0 ==> r is None,
+            old(self).of().dom().len() > 0 ==> r is Some && exists|k: SynTypePath| old(self).of().contains_key(k) && *(r->0) == old(self).of()[k],
+    { unimplemented!() }
+}
+
 // `parse_quote!(#path)` re-parses the tokens of a syn::Path into a syn::Path: ASSUMED to give the same path.
 #[verifier::external_body]
 pub fn parse_quote_path(p: &SynPath) -> (r: SynPath) ensures r == *p { unimplemented!() }
